@@ -155,6 +155,48 @@ def sparse_iterations(ctx, srv, sizes, counts):
     return done
 
 
+def large_count_iterations(ctx, srv):
+    """Key spaces and collections of more than a thousand elements iterated with COUNTs around and far above any internal page
+    limit (999, 1000, 1001, 1500, 5000, 100000), with and without TYPE / MATCH *: however many elements a call returns, the
+    cursor may only move past elements that were returned."""
+    s = workloads.fresh_session(ctx, srv, 'largecount')
+    n = 0
+    size = 1300 if ctx.quick else 2600
+    counts = [1000, 1001, 1200, 100000] if ctx.quick else [999, 1000, 1001, 1024, 1500, 2000, 2600, 5000, 100000]
+    try:
+        c = s.open()
+        s.cmd(c, [b'FLUSHALL'])
+        names = [b'k%05d' % i for i in range(size)]
+        for i in range(0, size, 100):
+            s.cmd(c, [b'MSET'] + [x for e in names[i:i + 100] for x in (e, b'v')])
+        s.cmd(c, [b'RPUSH', b'alist', b'x'])
+        none = lambda: None
+        for count in counts:
+            iterate(s, c, b'SCAN', None, count, ctx.rnd, none); n += 1
+            iterate(s, c, b'SCAN', None, count, ctx.rnd, none, typ=b'string'); n += 1
+            if not ctx.quick or count == 1001:
+                iterate(s, c, b'SCAN', None, count, ctx.rnd, none, match=b'*'); n += 1
+        s.cmd(c, [b'FLUSHALL'])
+        s.cmd(c, [b'SADD', b'S'] + names)
+        for count in counts:
+            iterate(s, c, b'SSCAN', b'S', count, ctx.rnd, none); n += 1
+        if not ctx.quick:
+            s.cmd(c, [b'DEL', b'S'])
+            s.cmd(c, [b'HSET', b'H'] + [x for e in names for x in (e, b'v')])
+            s.cmd(c, [b'ZADD', b'Z'] + [x for i, e in enumerate(names) for x in (str(i % 5).encode(), e)])
+            for count in counts:
+                iterate(s, c, b'HSCAN', b'H', count, ctx.rnd, none); n += 1
+                iterate(s, c, b'ZSCAN', b'Z', count, ctx.rnd, none); n += 1
+        s.cmd(c, [b'FLUSHALL'])
+    except ServerDied:
+        pass
+    s.close_all()
+    ctx.validate(s.trace, label='largecount')
+    if not srv.alive():
+        srv.restart()
+    return n
+
+
 def glob_iterations(ctx, srv):
     """MATCH over the glob matrix (workloads.glob_matrix: every pattern over {a,b,*,?} up to a length, classes, escapes,
     overlapping false starts) against every subject over {a,b} up to a length, for all four commands: a full iteration
@@ -292,6 +334,9 @@ def run(ctx):
         n += run_iterations(ctx, srv, 12 if ctx.quick else 40, 'scan%d' % i)
     n += sparse_iterations(ctx, srv, [60] if ctx.quick else [60, 150, 400], [1, 3] if ctx.quick else [1, 2, 3, 10, 25])
     n += stale_ttl_iterations(ctx, srv)
+    nl = large_count_iterations(ctx, srv)
+    ctx.extra_cov['large_count_iterations'] = nl
+    n += nl
     ng = glob_iterations(ctx, srv)
     ctx.extra_cov['glob_iterations'] = ng
     n += ng
